@@ -248,6 +248,22 @@ theorem newGroup_some_id (v : Variant) (qack : Int) (m : Meta) (h1 : qack ≤ m.
   simp only at ha hc
   subst ha; subst hc; rfl
 
+/-! ### Lite: the part of `Base` that `Order` / `Above` rest on (it survives explicit resets) -/
+
+structure Lite (s : State) : Prop where
+  mApp : s.q.mAppended = s.q.appended
+  mAck : s.q.mAck = s.q.ack
+  ackLo : -1 ≤ s.q.ack
+  ackLe : s.q.ack ≤ s.q.appended
+  grp : ∀ g grp, lookup s.live g = some grp → lookup s.metas g = some { consumed := grp.consumed, ack := grp.ack }
+
+theorem Base.lite {s : State} (h : Base s) : Lite s := ⟨h.q.mApp, h.q.mAck, h.q.ackLo, h.q.ackLe, h.grp⟩
+
+theorem Lite.reopenApp {s : State} (h : Lite s) : s.q.reopen.appended = s.q.appended := by
+  unfold Queue.reopen; split <;> exact h.mApp
+theorem Lite.reopenAck {s : State} (h : Lite s) : s.q.reopen.ack = s.q.ack := by
+  unfold Queue.reopen; split <;> exact h.mAck
+
 /-! ### Order: ack ≤ consumed ≤ appended, for every meta page (hence every live group) -/
 
 def Order (s : State) : Prop :=
@@ -255,7 +271,7 @@ def Order (s : State) : Prop :=
 
 theorem Order.init : Order State.init := by intro g m h; simp [State.init, lookup] at h
 
-theorem Order.live {s : State} (hb : Base s) (ho : Order s) (g : Nat) (grp : Group)
+theorem Order.liveL {s : State} (hb : Lite s) (ho : Order s) (g : Nat) (grp : Group)
     (h : lookup s.live g = some grp) : grp.ack ≤ grp.consumed ∧ grp.consumed ≤ s.q.appended :=
   ho g _ (hb.grp g grp h)
 
@@ -293,7 +309,7 @@ theorem newGroup_ordered (v : Variant) (qack app : Int) (m : Option Meta)
     · have := hr m0 rfl
       split <;> split <;> omega
 
-theorem Order.step {v : Variant} {s : State} {o : Op} (hb : Base s) (ho : Order s) (ok : o.okAt s)
+theorem Order.stepL {v : Variant} {s : State} {o : Op} (hb : Lite s) (ho : Order s) (ok : o.okAt s)
     (hg : v.liftConsumed = true ∨ o.restoreOrderedAt s) : Order (step v s o).1 := by
   cases o with
   | append len =>
@@ -314,7 +330,7 @@ theorem Order.step {v : Variant} {s : State} {o : Op} (hb : Base s) (ho : Order 
       · exact ho
       · split
         · rename_i hhead
-          have := ho.live hb g grp hgrp
+          have := ho.liveL hb g grp hgrp
           exact ho.putGroup _ _ ⟨by show grp.ack ≤ grp.consumed + 1; omega, hhead⟩
         · exact ho
   | ack g n =>
@@ -325,7 +341,7 @@ theorem Order.step {v : Variant} {s : State} {o : Op} (hb : Base s) (ho : Order 
     · rename_i grp hgrp
       split
       · rename_i hw
-        have := ho.live hb g grp hgrp
+        have := ho.liveL hb g grp hgrp
         exact ho.putGroup _ _ ⟨hw.2, this.2⟩
       · exact ho
   | setConsumed g n =>
@@ -365,7 +381,7 @@ theorem Order.step {v : Variant} {s : State} {o : Op} (hb : Base s) (ho : Order 
       · subst hgg
         rw [lookup_upsert_self] at hl
         cases hl
-        apply newGroup_ordered v s.q.ack s.q.appended _ _ hb.q.ackLo hb.q.ackLe
+        apply newGroup_ordered v s.q.ack s.q.appended _ _ hb.ackLo hb.ackLe
         · rcases hg with hl | hr
           · exact Or.inl hl
           · exact Or.inr (fun m0 hm0 => hr hnone m0 hm0)
@@ -383,21 +399,29 @@ theorem Order.step {v : Variant} {s : State} {o : Op} (hb : Base s) (ho : Order 
     change lookup (s.reopen v).metas g = some m at hl
     show _ ∧ m.consumed ≤ s.q.reopen.appended
     rw [reopen_metas_lookup] at hl
-    rw [reopen_appended hb.q]
+    rw [hb.reopenApp]
     cases hm : lookup s.metas g with
     | none => rw [hm] at hl; cases hl
     | some m0 =>
       rw [hm] at hl
       simp only [Option.map_some, Option.some.injEq] at hl
       subst hl
-      rw [reopen_ack hb.q]
-      apply newGroup_ordered v s.q.ack s.q.appended _ _ hb.q.ackLo hb.q.ackLe
+      rw [hb.reopenAck]
+      apply newGroup_ordered v s.q.ack s.q.appended _ _ hb.ackLo hb.ackLe
       · rcases hg with hl | hr
         · exact Or.inl hl
         · refine Or.inr (fun m1 hm1 => ?_)
           cases hm1
           exact hr g m0 hm
       · intro m1 hm1; cases hm1; exact ho g m0 hm
+
+theorem Order.live {s : State} (hb : Base s) (ho : Order s) (g : Nat) (grp : Group)
+    (h : lookup s.live g = some grp) : grp.ack ≤ grp.consumed ∧ grp.consumed ≤ s.q.appended :=
+  ho.liveL hb.lite g grp h
+
+theorem Order.step {v : Variant} {s : State} {o : Op} (hb : Base s) (ho : Order s) (ok : o.okAt s)
+    (hg : v.liftConsumed = true ∨ o.restoreOrderedAt s) : Order (step v s o).1 :=
+  Order.stepL hb.lite ho ok hg
 
 /-! ### Above: the queue ack is at or below the ack of every live group -/
 
@@ -423,7 +447,7 @@ theorem sync_candidate_le (s : State) (g : Nat) (grp : Group) (h : lookup s.live
     minAck s.q.appended s.live ≤ grp.ack :=
   minAck_le_mem _ _ g grp (mem_of_lookup h)
 
-theorem Above.step {v : Variant} {s : State} {o : Op} (hb : Base s) (ha : Above s) (ok : o.okAt s)
+theorem Above.stepL {v : Variant} {s : State} {o : Op} (hb : Lite s) (ha : Above s) (ok : o.okAt s)
     (hg : v.freshAtQueueAck = true ∨ o.freshOkAt s) : Above (step v s o).1 := by
   cases o with
   | append len =>
@@ -543,5 +567,9 @@ theorem Above.step {v : Variant} {s : State} {o : Op} (hb : Base s) (ha : Above 
       simp only [Option.map_some, Option.some.injEq] at hl
       subst hl
       exact newGroup_some_ack_ge v _ m0
+
+theorem Above.step {v : Variant} {s : State} {o : Op} (hb : Base s) (ha : Above s) (ok : o.okAt s)
+    (hg : v.freshAtQueueAck = true ∨ o.freshOkAt s) : Above (step v s o).1 :=
+  Above.stepL hb.lite ha ok hg
 
 end LinVerif.FanOut
